@@ -44,9 +44,13 @@ Inductive c14case :=
 | KeysCase (keys : list (string * list string)) (shape : list (string * list (string * bool)))
     (* the live QueryDocumentKeys and ast struct shapes *)
 | TiCase (t : gnode) (sch : tschema) (attrs : list (N * nattr)) (o : vopts) (pol : list (N * N))
-         (obs : list (phase * N * tenv)).
+         (obs : list (phase * N * tenv))
     (* visitor.Visit(doc, VisitWithTypeInfo(typeInfo, options), nil): what the TypeInfo reported
        inside every callback of the sub-visitor *)
+| StackCase (t : gnode) (sch : tschema) (attrs : list (N * nattr)) (subs : list (vopts * list (N * N)))
+            (obs : list (list (phase * N * tenv))).
+    (* the validator's composition VisitWithTypeInfo(typeInfo, VisitInParallel(subs...)): what the
+       TypeInfo reported inside every callback of every sub-visitor *)
 
 (* observations identify a field definition by name and type, a directive by name, an
    argument by name and type *)
@@ -104,6 +108,15 @@ Definition check (c : c14case) : N :=
     if negb (list_eqb obs_eqb obs spec) then 2
     else if negb (ti_ok false false t && tree_ok t) then 1   (* hypotheses of C14_typeinfo *)
     else if list_eqb obs_eqb obs (ti_run sch attr sel p ti_init outer) then 0 else 1
+  | StackCase t sch attrs subs obs =>
+    (* by C14_parallel_projection sub-visitor i is called exactly at the events of its own walk;
+       the TypeInfo has been told of every enclosing node (the parallel wrapper never skips), so
+       by C14_typeinfo it reports types_at of the chain there.  Judged against the spec only. *)
+    let attr := attr_of attrs in
+    let kind_of := kind_of_tree t in
+    let spec := map (fun s => map (fun e => (e_phase e, e_id e, types_at sch attr (chain_of kind_of e)))
+                                  (walk_events keys_of (get_visit_fn (fst s)) (pol_of (snd s)) t)) subs in
+    if list_eqb (list_eqb obs_eqb) obs spec then 0 else 2
   | KeysCase keys shape =>
     if negb (keys_complete String.eqb exempt_names keys shape) then 2
     else if list_eqb (fun a b => String.eqb (fst a) (fst b) && list_eqb String.eqb (snd a) (snd b)) keys gen_keys_named
